@@ -103,7 +103,7 @@ def plan(tier: str, seed: int) -> Plan:
                                    {"maxs": 3 if thorough else 2, "unicode_escape": ue, "prefix": prefix, "sigma": sg}, T * 2,
                                    bounds=f"pointer text = prefix {['/', '', '/a/'][prefix]!r} + up to {3 if thorough else 2} characters of the "
                                           f"first {sg} of the alphabet Sigma (solver-driven enumeration)"))
-        for base in ((0, 1, 2, 3) if thorough else (0, 2)):
+        for base in ((0, 1, 2, 3, 4, 5) if thorough else (0, 2, 4)):
             conds.append(Condition(f"relative-sigma:ue={ue}:base={base}", "relative", H, "relative_sigma",
                                    {"maxs": 2 if thorough else 1, "unicode_escape": ue, "base": base, "sigma": sg}, T * 3, required=False,
                                    bounds="relative pointer = 8 step spellings x 11 offset spellings x Sigma tail (enumeration)"))
